@@ -4,6 +4,7 @@ use sip_core::{Endpoint, EndpointBuilder, IncomingRequest, Layer, LayerKey, MayT
 use sip_types::{Code, Method};
 use slotmap::{DefaultKey, SlotMap};
 use std::cmp::Ordering;
+use std::collections::hash_map::Entry;
 use std::collections::BTreeMap;
 use std::collections::HashMap;
 use std::sync::Arc;
@@ -20,6 +21,8 @@ pub(super) struct DialogEntry {
     backlog: BTreeMap<u32, IncomingRequest>,
     next_peer_cseq: Option<u32>,
     usages: SlotMap<DefaultKey, Arc<dyn Usage>>,
+    /// Number of `Dialog` objects sharing this entry, the last one to be dropped removes it
+    owners: usize,
 }
 
 impl DialogEntry {
@@ -29,6 +32,31 @@ impl DialogEntry {
             // CSeq numbers end at u32::MAX, nothing higher can follow
             next_peer_cseq: peer_cseq.map(|peer_cseq| peer_cseq.saturating_add(1)),
             usages: Default::default(),
+            owners: 1,
+        }
+    }
+
+    /// Add the entry for a newly created `Dialog`.
+    ///
+    /// A second `Dialog` with the identifiers of one that still exists (e.g. created from a retransmitted
+    /// response) shares the existing entry instead of replacing it and the usages registered on it.
+    pub fn insert(dialogs: &mut HashMap<DialogKey, DialogEntry>, key: DialogKey, entry: DialogEntry) {
+        match dialogs.entry(key) {
+            Entry::Occupied(mut existing) => existing.get_mut().owners += 1,
+            Entry::Vacant(vacant) => {
+                vacant.insert(entry);
+            }
+        }
+    }
+
+    /// A `Dialog` has been dropped, remove its entry unless another `Dialog` still shares it.
+    pub fn release(dialogs: &mut HashMap<DialogKey, DialogEntry>, key: &DialogKey) {
+        if let Some(entry) = dialogs.get_mut(key) {
+            entry.owners -= 1;
+
+            if entry.owners == 0 {
+                dialogs.remove(key);
+            }
         }
     }
 }
